@@ -8,3 +8,7 @@ def check(rep, tier):
     rep.run(rules_exact.run, rep, tier, rules_exact.CLAUSE_PROPS["C02"])
     from contracts import rules_numeric
     rep.run(rules_numeric.run, rep, tier, clauses=('N-jvp',), only_complex='real-only')
+    from contracts import guards, core_rules
+    rep.run(guards.run, rep, tier)
+    rep.run(core_rules.run, rep, tier, parts=("defjvp",))
+    rep.run(rules_scalar.run, rep, tier, adjoint=True)     # forward rules at ties / kinks: the factor equals the reverse rule's
